@@ -14,6 +14,7 @@ import YtkModel.Codec
 import YtkProofs.Builder
 import YtkProofs.LensIdx
 import YtkProofs.Rebuild
+import YtkProofs.RebuildB
 import YtkProofs.ValidB
 
 namespace Ytk
@@ -741,16 +742,6 @@ def POp.value : POp → Node
 /-- THE DOMAIN of a structured call: a non-empty path, path-safe keys (non-empty, no `.`, `[`, `]`),
     a valid value (sorted unique keys, none ending in an index group) -/
 def POp.Ok (op : POp) : Prop := op.comps ≠ [] ∧ (∀ x ∈ op.comps, SafeKey x.1) ∧ op.value.Valid
-
-def safeKeyB (k : String) : Bool :=
-  !k.toList.isEmpty && k.toList.all fun c => c != '.' && c != '[' && c != ']'
-
-theorem safeKeyB_sound {k : String} (h : safeKeyB k = true) : SafeKey k := by
-  simp only [safeKeyB, Bool.and_eq_true, Bool.not_eq_true', List.all_eq_true, bne_iff_ne, ne_eq] at h
-  refine ⟨?_, fun c hc => ?_⟩
-  · intro e; rw [e] at h; simp at h
-  · have := h.2 c hc
-    exact ⟨this.1.1, this.1.2, this.2⟩
 
 /-- the domain, as a program -/
 def POp.okB (op : POp) : Bool := !op.comps.isEmpty && op.comps.all (fun x => safeKeyB x.1) && op.value.validB
